@@ -161,7 +161,7 @@ class CHECK(core.Check):
     TECHNIQUE = ("Lean 4 theorems (table invariant preserved by every primitive, by induction over histories and over the "
                  "accept / handshake loops) + differential correspondence with listen/socket doubles")
     LEVEL_TEXT = ("Proved on the model for all histories, Server and ServerTls, both versions: C26_ixes_keys_unique, "
-                  "C26_entries_match_peer; step theorems C26_accept_replaces_stale (no raise, stale socket shut down, entry "
+                  "C26_entries_match_peer, C26_no_shared_socket; step theorems C26_accept_replaces_stale (no raise, stale socket shut down, entry "
                   "replaced in place, others untouched), C26_accept_new, C26_malformed_refused, C26_remove_closes, "
                   "C26_close_keeps_entry, C26_tls_handshake_moves; C26_displaced_are_shut_partial (Server: every socket ever "
                   "entered is a live entry, shut, or released); as found: C26_D14_orig_raises; counterexample "
